@@ -44,6 +44,30 @@ type optionDefinition struct {
 
 type optionDefinitions []*optionDefinition
 
+// asStringSlice returns v as a slice of strings: yaml decodes a sequence of strings into
+// []interface{}, not []string.
+func asStringSlice(v interface{}) ([]string, bool) {
+	switch t := v.(type) {
+	case []string:
+		return t, true
+	case []interface{}:
+		out := make([]string, len(t))
+
+		for i, e := range t {
+			s, ok := e.(string)
+			if !ok {
+				return nil, false
+			}
+
+			out[i] = s
+		}
+
+		return out, true
+	}
+
+	return nil, false
+}
+
 func (o *optionDefinitions) asOptions() []util.Option { //nolint: gocyclo,gocognit,funlen
 	opts := make([]util.Option, len(*o))
 
@@ -142,7 +166,7 @@ func (o *optionDefinitions) asOptions() []util.Option { //nolint: gocyclo,gocogn
 
 			opts[i] = options.WithTermWidth(intVal)
 		case transportSystemOpenArgs:
-			strSliceVal, ok := opt.Value.([]string)
+			strSliceVal, ok := asStringSlice(opt.Value)
 			if !ok {
 				panic("option transportSystemOpenArgs value must be an array of strings")
 			}
